@@ -768,12 +768,16 @@ def run(ctx):
     mc = design_check(ctx) if not os.environ.get("C16_SKIP_DESIGN") else {}
     nprog = 2000 if ctx.quick else 30000
     max_refsem_weight = 400
-    cases, heavy_refsem = [], 0
+    cases, heavy_refsem, nrefsem, refsem_cap = [], 0, 0, (10 ** 9 if ctx.quick else 9000)
     for i in range(nprog):
         c = make_case(rnd, i + 1)
-        c["refsem"] = c["infrag"] and (c["weight"] <= max_refsem_weight or heavy_refsem < (6 if ctx.quick else 40))
-        if c["refsem"] and c["weight"] > max_refsem_weight:
-            heavy_refsem += 1
+        # RefSem is evaluated on the programs that may be inside its fragment (a bounded number of them in the thorough tier,
+        # and only a few of the programs with thousands of statements: TLC's evaluation depth grows with the program)
+        c["refsem"] = c["infrag"] and nrefsem < refsem_cap and (c["weight"] <= max_refsem_weight or heavy_refsem < (6 if ctx.quick else 40))
+        if c["refsem"]:
+            nrefsem += 1
+            if c["weight"] > max_refsem_weight:
+                heavy_refsem += 1
         cases.append(c)
     ctx.log("generated %d programs (%.1f MB of source)" % (len(cases), sum(len(c["src"]) + sum(map(len, c["mods"].values())) for c in cases) / 1e6))
     res, asts = execute(ctx, cases, "p")
